@@ -105,7 +105,14 @@ def _apply_obs(obs, variant, tag):
     raise ValueError(variant)
 
 
-def build(fam, kind, name, obs_variant="orig"):
+def ghi_series(idx, tag):
+    hr = idx.hour.to_numpy()
+    doy = idx.dayofyear.to_numpy()
+    sun = np.maximum(0.0, np.sin(np.pi * (hr - 6) / 12.0)) * (600 + 300 * np.sin(2 * np.pi * (doy - 80) / 365.0))
+    return sun * (0.6 + 0.4 * _rng("G" + tag).random(len(idx)))
+
+
+def build(fam, kind, name, obs_variant="orig", ghi=False):
     """Return (frame the caller owns, constructor kwargs).  fam in daily|billing|hourly|caltrack."""
     tag = "%s/%s" % (fam, name)
     if fam in ("daily", "billing"):
@@ -142,6 +149,11 @@ def build(fam, kind, name, obs_variant="orig"):
             idx, T = hourly_weather(start, days, tz, "r" + name)
             obs = _apply_obs(hourly_usage(T, idx, HCURVE_A, 0.1, "r" + tag) * 0.85, obs_variant, tag)
         cols = {"temperature": T}
+        if ghi:
+            g = ghi_series(idx, ("b" if kind == "baseline" else "r") + name)
+            cols["ghi"] = g
+            if obs is not None:
+                obs = obs - 0.002 * g          # a building with PV: usage falls with irradiance
         if obs is not None:
             cols["observed"] = obs
         return pd.DataFrame(cols, index=idx), {"is_electricity_data": True}
